@@ -4,7 +4,7 @@
 From Coq Require Import List Arith Bool NArith.
 From Conductor Require Import Model.Loader Model.Planner Model.Exec Model.RunCase
   Proofs.ExecInv Proofs.ExecTheorems Proofs.ExecMain Proofs.PlannerInv Proofs.PlannerOrder Proofs.ComposeExec.
-From Conductor Require Import Gen.Generated Proofs.GenTie Proofs.GenTieLowering.
+From Conductor Require Import Gen.Generated Proofs.GenTie Proofs.GenTieLowering Proofs.GenTieExec.
 From Conductor Require Import Proofs.WfPlanDec Lib.Str Model.Env Proofs.SpawnEnv Proofs.GenTieEnv.
 Import ListNotations.
 
@@ -98,6 +98,21 @@ Theorem C04_parallelizable_is_the_declaration : forall k (tp : bool), exists cls
   (match k with KCommand | KExperiment => tp | _ => false end) = par && tp.
 Proof. intros k tp. destruct (lowering_tie k) as (c & p & v & r & s & H & _ & Hp & _). exists c, p, v, r, s. split; [exact H|apply Hp]. Qed.
 Print Assumptions C04_parallelizable_is_the_declaration.
+
+(* ... and the two ready lists of the model are _ReadyToRunQueue as TRANSLATED from executor.py: has_ops / has_parallelizable_ops
+   over the two lengths, an operation joins the parallel queue iff it is parallelizable (at the end), parallelizable operations
+   are dequeued first (from the front) *)
+Theorem C04_ready_queue_is_the_sources : forall p s o,
+  has_ops s = gen_queue_has_ops (length (readyS s)) (length (readyP s)) /\
+  has_par s = gen_queue_has_par (length (readyS s)) (length (readyP s)) /\
+  readyP (enqueue p s o) = (if gen_enqueue_to_parallel (is_par p o) then readyP s ++ [o] else readyP s) /\
+  readyS (enqueue p s o) = (if gen_enqueue_to_parallel (is_par p o) then readyS s else readyS s ++ [o]) /\
+  dequeue s = (if gen_dequeue_from_parallel (has_par s)
+               then (hd 0 (readyP s), readyS s, tl (readyP s))
+               else (hd 0 (readyS s), tl (readyS s), [])) /\
+  gen_queues_are_fifo = true.
+Proof. exact queue_tie. Qed.
+Print Assumptions C04_ready_queue_is_the_sources.
 
 (* ... used by the model where the source uses it: the start event of a launched operation carries
    the top of the free-slot stack exactly when the translated condition holds of that operation *)
